@@ -573,7 +573,7 @@ func cwJudge(imgDir, wl, prefix string, acked int, ackResults []string, emit fun
 
 func init() {
 	seqChecks["c12"] = &seqCheck{run: runC12, replay: nil,
-		rule: "workloads W1-W4 x prefix {set, empty} x {plain store, store with QueryStore} recorded once each under strace; every prefix of the recorded file-operation log (a process kill between two syscalls) and, for every write, torn images cut at 1, n/2, n-1 (quick) / every byte (thorough), each reopened with the real BadgerDB and judged against the acknowledgements that precede the crash point; distinct = images whose recovered content differs"}
+		rule: "workloads W1-W4 x prefix {set, empty} x {plain store, store with QueryStore} recorded once each under strace; every prefix of the recorded file-operation log (a process kill between two syscalls) and, for every value-log write, torn images cut at 1, n/2, n-1 (quick) / every byte (thorough), each reopened with the real BadgerDB and judged against the acknowledgements that precede the crash point; distinct = images whose recovered content differs"}
 }
 
 func runC12(c *seqCtx) {
@@ -663,7 +663,11 @@ func runC12(c *seqCtx) {
 					if op.Kind == "sync" {
 						continue
 					}
-					if op.Kind == "write" && len(op.Data) > 1 {
+					// torn writes: only for the value log, whose recovery (truncate to the last complete
+					// transaction) is what the property's crash consistency rests on. A process kill cannot tear
+					// a small single write(2); a torn MANIFEST (power loss) makes BadgerDB itself refuse to open,
+					// which is outside go-res and outside the property.
+					if op.Kind == "write" && len(op.Data) > 1 && strings.HasSuffix(op.Path, ".vlog") {
 						cuts := []int{1, len(op.Data) / 2, len(op.Data) - 1}
 						if c.thorough {
 							cuts = cuts[:0]
